@@ -36,12 +36,17 @@ class FullGen(Gen):
         "emit(typed_fn3(1, \"a\", c=(1,)))", "emit(typed_fn3(b=\"a\", a=1.5))", "emit(typed_ret(5))", "emit(typed_ret([\"s\"]))", "emit(typed_fn2(\"1\"))", "emit(typed_fn2(1, {1: 1}))",
         "emit(typed_fn2(1, None, \"a\", 2))", "emit(typed_fn2(1, k=1))", "emit(typed_fn2([], {\"a\": \"b\"}, \"r\", k=True))",
     ]
+    # errors whose text lists several offending names
+    NAMED_FAILS = [
+        "emit(len([1], zz=1, yy=2, xx=3, ww=4))", "emit(type(1, beta=2, alpha=1, **{\"q\": 1, \"p\": 2}))", "emit(repr(1, one=1, two=2, three=3))",
+        "emit(typed_fn3(1, \"a\", qq=1, pp=2, oo=3))", "emit(typed_fn3())", "emit(struct(a=1).bb, struct(a=1, ab=2, ba=3).aa)", "emit(hash(\"a\", k3=1, k1=2, k2=3))",
+    ]
     TYPED_OK = ["typed_fn3(1, \"ab\")", "typed_fn3(2, \"\", [1, 2])", "typed_fn3(b=\"x\", a=3, c=[])", "typed_fn2(None)", "typed_fn2(4, {\"a\": 1}, \"r\", \"s\", k=True)",
                 "typed_fn2(1, None, *[\"a\"], **{\"z\": False})", "typed_ret(\"s\")"]
 
     def program(self, pre_lines=None, pre_vars=None, pre_fns=None):
         if self.annotations:
-            self.FAILS = list(Gen.FAILS) + self.TYPED_FAILS
+            self.FAILS = list(Gen.FAILS) + self.TYPED_FAILS + self.NAMED_FAILS
         lines = super().program(pre_lines=pre_lines, pre_vars=pre_vars, pre_fns=pre_fns)
         if self.annotations:
             pre = []
